@@ -300,9 +300,101 @@ def list_element_dynref_histories(ck, tier):
     ck.sample({"kind": "list-element dynamic references"})
 
 
+def outside_instance_histories(ck, tier):
+    """Inline and dynamic constraints that mention a field of *another* live instance of the same class (never randomized,
+    or randomized before): that field is a constant of the call - it keeps its value, and the object being randomized
+    satisfies the constraint against that value; no value left = SolveFailure."""
+    import random
+    import solvelib as S
+    S.install()
+    import vsc
+    from vsc.model.rand_state import RandState
+    from vsc.model.solve_failure import SolveFailure
+    rng = random.Random("C06/outside-instance/%d" % ck.seed)
+
+    @vsc.randobj
+    class P:
+        def __init__(self, peer=None):
+            self.a = vsc.rand_uint8_t()
+            self.b = vsc.rand_uint8_t()
+            # (a dynamic constraint is elaborated once, when the object is built: the peer it names is fixed then)
+            self.peers = [peer if peer is not None else self]
+
+        @vsc.constraint
+        def c(self):
+            self.b < 100
+
+        @vsc.dynamic_constraint
+        def above_peer(self):
+            self.a > self.peers[0].a
+    OPS = {"gt": lambda x, y: x > y, "lt": lambda x, y: x < y, "eq": lambda x, y: x == y, "ne": lambda x, y: x != y}
+    for h in range(80 if tier == "thorough" else 10):
+        others = [P() for _ in range(rng.randint(1, 3))]
+        x = P(others[0])
+        for o in others:
+            if rng.random() < 0.4:
+                o.set_randstate(RandState.mkFromSeed(rng.randrange(1 << 20)))
+                with common.quiet():
+                    o.randomize()
+        for c in range(rng.randint(2, 5)):
+            kind = rng.choice(["inline", "inline", "dynamic"])
+            o = rng.choice(others) if kind == "inline" else others[0]
+            if rng.random() < 0.6:
+                o.a = rng.choice([0, 1, 7, 200, 254, 255, rng.randrange(256)])
+                o.b = rng.randrange(256)
+            before = [(int(q.a), int(q.b)) for q in others]
+            op = rng.choice(sorted(OPS)) if kind == "inline" else "gt"
+            fld = rng.choice(["a", "b"]) if kind == "inline" else "a"
+            ref = int(getattr(o, fld))
+            sd = rng.randrange(1 << 30)
+            x.set_randstate(RandState.mkFromSeed(sd))
+            case = {"kind": kind, "constraint": "it.a %s other.%s" % (op, fld), "other_value": ref, "seed": sd, "call": c,
+                    "other_was_randomized_before": None}
+            ck.count("eval_outside_instance_calls")
+            sat = any(OPS[op](v, ref) for v in range(256))
+            try:
+                with common.quiet():
+                    with x.randomize_with() as it:
+                        if kind == "dynamic":
+                            it.above_peer()
+                        elif op == "gt":
+                            it.a > getattr(o, fld)
+                        elif op == "lt":
+                            it.a < getattr(o, fld)
+                        elif op == "eq":
+                            it.a == getattr(o, fld)
+                        else:
+                            it.a != getattr(o, fld)
+                raised = None
+            except SolveFailure:
+                raised = "SolveFailure"
+            except Exception as e:
+                ck.oracle_fail("outside-instance-call-raised:%s" % type(e).__name__, case, str(e)[:200], "SolveFailure or a normal return")
+                break
+            after = [(int(q.a), int(q.b)) for q in others]
+            if after != before:
+                ck.oracle_fail("other-instance-changed-by-call", case, {"before": before, "after": after},
+                               "a field of another instance mentioned by the call is a constant of the call")
+                break
+            if raised:
+                if sat:
+                    ck.oracle_fail("outside-instance-spurious-SolveFailure", case, raised, "satisfiable against the other instance's value")
+                    break
+                continue
+            if not sat:
+                ck.oracle_fail("outside-instance-unsatisfiable-returned-normally", case, int(x.a), "SolveFailure")
+                break
+            if not OPS[op](int(x.a), ref) or int(x.b) >= 100:
+                ck.oracle_fail("constraint-not-against-the-other-instance's-current-value", case, {"x.a": int(x.a), "x.b": int(x.b)},
+                               "x.a %s %d and x.b < 100" % (op, ref))
+                break
+    ck.sample({"kind": "constraints over fields of other instances"})
+
+
 def extras(ck, tier):
     dynamic_foreach_histories(ck, tier)
     list_element_dynref_histories(ck, tier)
+    outside_instance_histories(ck, tier)
 
 
 if __name__ == "__main__":
